@@ -22,7 +22,7 @@ if [ -n "$demo" ]; then
 fi
 for p in $props; do
   out=$(PYVC_REPO=$D/repo ./check $p --tier ${TIER:-quick} ${CHECK_ARGS:-} 2>&1); rc=$?
-  v=$(echo "$out" | grep -E "^VIOLATION" | head -3 | cut -c1-260)
+  v=$( (echo "$out" | grep -E "^VIOLATION.*obligation=" | head -3; echo "$out" | grep -E "^VIOLATION" | grep -v "obligation=" | head -2) | cut -c1-260)
   echo "$name: check $p rc=$rc"; [ -n "$v" ] && echo "$v" | sed 's/^/    /'
   [ $rc -ge 2 ] && echo "$out" | grep -E "UNDECIDED|CHECKER|unsupported|vacuity" | head -5 | cut -c1-260 | sed 's/^/    /'
 done
